@@ -32,6 +32,11 @@ def run(ctx):
                 ctx.violation({'check': 'C11', 'kind': 'not_cut_by_proxy', 'conn_kind': c.split(':')[1]},
                               'scenario %s: connection %s still open %.1fs after going idle/stalling (handshake timeout 200ms, idle timeout 300ms)'
                               % (sc['name'], c, sc['latency'].get('all_cut_after_s', -1)), sc)
+        if sc['family'] == 'pending':
+            for c in sc.get('still_served_6s_after_the_client_left') or []:
+                ctx.violation({'check': 'C11', 'kind': 'connection_never_released', 'family': 'pending', 'conn_kind': c.split(':')[-1]},
+                              'scenario %s: connection %s was still being served 6 s after its client had left (a complete request was with a backend that does not answer; '
+                              'no timeout is configured that could end it later)' % (sc['name'], c), sc)
         for n in sc.get('notes') or []:
             if 'never logged exit' in n and sc['name'] in accepted:
                 ctx.violation({'check': 'C11', 'kind': 'connection_never_released', 'family': sc['family']}, 'scenario %s: %s' % (sc['name'], n), sc)
